@@ -132,6 +132,18 @@ class Taint:
                 dty = b.local_ty(t["dest"]["l"]) if not t["dest"].get("p") else ""
                 if self._peel(dty) in INT_TYPES:
                     continue
+                # a private function of the crate that builds and returns a fresh String (its own appends are sinks checked like any
+                # other): its result is as clean as what it is built from
+                from mq.facts import CallSite as _CS
+                subs = [hb for hb in local_callee_bodies(self.F, _CS(b, x[1], t)) if hb.crate == CR and hb.kind != "Closure"]
+                if subs and "String" in dty and x[1] not in getattr(self, "_busy", set()):
+                    self._busy = getattr(self, "_busy", set()) | {x[1]}
+                    try:
+                        res = [self.classify(hb, {"copy": {"l": 0, "p": []}}) for hb in subs if in_scope(hb)]
+                    finally:
+                        self._busy = self._busy - {x[1]}
+                    if res and all(not bd and not pm for bd, pm in res):
+                        continue
                 bad.append(("call", d, x[1]))
                 continue
             bad.append(x)
